@@ -123,6 +123,10 @@ fn corpus() -> Vec<&'static str> {
         "prog 1 1 0 - infd v0 I 0 4 infd v0 V 3 0 2 4",
         "prog 2 2 0 - infd v0 V 3 0 2 4 infd v1 I 0 4 eq v1 v0",
         "prog 2 2 0 - infd v0 V 3 0 2 4 infd v1 I 0 4 eq v0 v1",
+        // the seeds' own programs: distinct cascade (C16-k), hidden product (C17-k), aliased operands (C04-k)
+        "prog 2 2 0 - infd v0 V 2 2 5 infd v1 I 0 5 ltefd v1 v0 distinctfd cons v0 cons v1 cons i5 nil",
+        "prog 3 1 0 - infd v0 I 0 1 infd v1 I -3 2 infd v2 I -3 2 timesfd v1 v2 i4",
+        "prog 4 2 0 - infd cons v0 cons v1 cons v2 cons v3 nil V 3 1 2 3 ltefd v0 v1 eq v0 v2 eq v1 v3 ltefd i3 v2 conde 2 1 eq v3 i3 1 ltefd v3 i1",
         // D15: labelling through a compound / list query term
         "prog 3 1 0 - eq v0 comp0 cons v1 cons v2 nil infd v1 I 0 1 infd v2 I 0 1",
         "prog 3 1 0 - eq v0 cons v1 cons cons v2 nil nil infd v1 I 0 1 infd v2 V 2 3 5 ltfd v1 v2",
@@ -174,6 +178,10 @@ pub fn replay(line: &str, which: u32, out: &mut Out) {
 }
 
 pub fn gen_prog(r: &mut Rng) -> Prog {
+    if r.chance(1, 6) {
+        let (nvars, nq, body) = crate::fdgen::scenario(r);
+        return Prog { nvars, nq, take: 0, body, raw: false };
+    }
     let nv = 1 + r.below(4);
     let signs = r.chance(1, 2);
     let g = FdGen { nv, lo: LO, hi: HI, signs };
